@@ -37,8 +37,10 @@ theorem dropPrefixCI_none_word (sw tl w rest : Txt) (hsw : ∀ a ∈ sw, isAlpha
         simpa [ciPrefix, hc] using hno
       · simp [hc]
 
-/-- words a label name must not begin with (caselessly): they would be read as the shift / extend of
-    the operand in front, or as a prefetch operation -/
+/-- the leading words of the shift / extend operators (`mul` of `mul vl`), and the words a label name
+    must not begin with (caselessly) because it would be read as a prefetch operation.  A name may begin
+    with a shift word (`lsl_loop`, `rorx`): the operator ends at a word boundary; only a name that *is*
+    a shift operator (`lsl`) is read as the shift of the operand in front of it. -/
 def shiftWords : List Txt :=
   [ofString "lsl", ofString "lsr", ofString "asr", ofString "ror", ofString "sxtw", ofString "uxtw",
    ofString "uxtb", ofString "sxtx", ofString "mul"]
@@ -97,13 +99,14 @@ structure IdentNameOk (name : Txt) : Prop where
   noReg : regLike name = false
   noAlias : aliasLike name = false
   noCond : condLits.contains (lower name) = false
-  noShift : shiftWords.all (fun sw => !ciPrefix sw name) = true
+  /-- the name is not itself a shift / extend operator -/
+  noShift : A64.shiftOps.contains (lower name) = false
   noPrf : prfWords.all (fun sw => !ciPrefix sw name) = true
 
 /-- what may follow a label name: no letter or digit directly behind it, and no digit after white space -/
 structure NameEnd (rest : Txt) : Prop where
   head : ∀ c r, rest = c :: r → isAlphaC c = false ∧ isDigitC c = false
-  next : ∀ c r, skipWs rest = c :: r → isDigitC c = false
+  next : ∀ c r, skipWs rest = c :: r → isDigitC c = false ∧ isAlphaC c = false
 
 theorem NameEnd.noAlpha {rest : Txt} (h : NameEnd rest) : NoAlphaHead rest := fun c r hc => (h.head c r hc).1
 
@@ -114,11 +117,11 @@ theorem Follow.nameEnd {rest : Txt} (hf : Follow rest) : NameEnd rest := by
     · simp [isBlankC] at hb; rcases hb with rfl | rfl <;> exact ⟨by decide, by decide⟩
     all_goals exact ⟨by decide, by decide⟩
   · intro c r h
-    rcases hf.next c r h with rfl | rfl | rfl <;> decide
+    rcases hf.next c r h with rfl | rfl | rfl <;> exact ⟨by decide, by decide⟩
 
 theorem nameEnd_plus (t : Txt) : NameEnd (43 :: t) :=
   ⟨fun c r h => by simp at h; rw [← h.1]; exact ⟨by decide, by decide⟩,
-   fun c r h => by simp [skipWs, isWs] at h; rw [← h.1]; decide⟩
+   fun c r h => by simp [skipWs, isWs] at h; rw [← h.1]; exact ⟨by decide, by decide⟩⟩
 
 /-- two letters at the start of `w ++ rest` are two letters of `w` -/
 theorem startsWith_two (w rest : Txt) (a b : Nat) (ha : isAlphaC a = true) (hb : isAlphaC b = true)
@@ -211,7 +214,7 @@ theorem word_digits_none (c : Nat) (w rest : Txt) (hw : ∀ d ∈ w, isIdRestC d
       apply wordNS_none
       intro d' r' h
       simp at h; rw [← h.1]
-      exact hf.next d r hs
+      exact (hf.next d r hs).1
   | cons x w' =>
     have hx := idRest_not_ws x (hw x (by simp))
     rw [List.cons_append, skipWs_cons x _ hx]
@@ -354,6 +357,131 @@ theorem idRest_wordEnd (c : Nat) (h : isIdRestC c = true) : isWordEndC c = true 
   simp only [isIdRestC, isWordEndC, A64.identRestExtra, A64.wordEndExtra] at *
   exact h
 
+/-! ### shift operators that are a prefix of a label name -/
+/-- what stands behind the leading word of a shift operator: nothing, or a blank and a letter (`mul vl`) -/
+def shiftTailOk (tl : Txt) : Bool :=
+  match tl with
+  | [] => true
+  | 32 :: a :: _ => isAlphaC a
+  | _ => false
+
+theorem shiftOps_split : ∀ l ∈ A64.shiftOps,
+    shiftWords.any (fun sw => startsWord sw l && shiftTailOk (l.drop sw.length)) = true := by decide
+
+theorem ciPrefix_split (sw name : Txt) (h : ciPrefix sw name = true) : ∃ n1 n2, name = n1 ++ n2 ∧ lower n1 = sw := by
+  induction sw generalizing name with
+  | nil => exact ⟨[], name, rfl, rfl⟩
+  | cons a sw ih =>
+    cases name with
+    | nil => simp [ciPrefix] at h
+    | cons c w =>
+      simp only [ciPrefix, Bool.and_eq_true, beq_iff_eq] at h
+      obtain ⟨n1, n2, hw, hl⟩ := ih w h.2
+      exact ⟨c :: n1, n2, by rw [hw]; rfl, by simp [lower, h.1]; exact hl⟩
+
+theorem dropPrefixCI_lower_append (n1 t tl : Txt) : dropPrefixCI (n1 ++ t) (lower n1 ++ tl) = dropPrefixCI t tl := by
+  induction n1 with
+  | nil => rfl
+  | cons c n1 ih =>
+    simp only [List.cons_append, lower, List.map_cons, dropPrefixCI, beq_self_eq_true, if_true]
+    exact ih
+
+theorem idRest_lowerC_ne_blank (d : Nat) (h : isIdRestC d = true) : lowerC d ≠ 32 := by
+  simp only [isIdRestC, isAlnumC, isAlphaC, isDigitC, A64.identRestExtra] at h
+  simp at h
+  simp only [lowerC]; split <;> omega
+
+theorem lowerC_eq_blank (c : Nat) (h : lowerC c = 32) : c = 32 := by
+  simp only [lowerC] at h; split at h <;> omega
+
+/-- one shift operator on a label name that is not itself a shift operator: no match, or a match that
+    ends inside the name (in front of a word character) -/
+theorem shiftLit_name (l name rest r : Txt) (hl : l ∈ A64.shiftOps) (hw : ∀ d ∈ name, isIdRestC d = true)
+    (hno : A64.shiftOps.contains (lower name) = false) (hf : NameEnd rest)
+    (h : dropPrefixCI (name ++ rest) l = some r) : ∃ d r', r = d :: r' ∧ isWordEndC d = true := by
+  obtain ⟨sw, hsw, hst⟩ := List.any_eq_true.mp (shiftOps_split l hl)
+  simp only [startsWord, Bool.and_eq_true] at hst
+  obtain ⟨⟨hstart, halpha⟩, htail⟩ := hst
+  obtain ⟨tl, rfl⟩ := startsWith_split l sw hstart
+  have htl : (sw ++ tl).drop sw.length = tl := by simp
+  rw [htl] at htail
+  by_cases hp : ciPrefix sw name = true
+  · obtain ⟨n1, n2, rfl, rfl⟩ := ciPrefix_split sw name hp
+    rw [List.append_assoc, dropPrefixCI_lower_append] at h
+    match tl, htail with
+    | [], _ =>
+      cases n2 with
+      | nil =>
+        -- the name is the operator
+        simp only [List.append_nil] at hl hno
+        have : A64.shiftOps.contains (lower n1) = true := by simpa using hl
+        rw [this] at hno; cases hno
+      | cons d n2' =>
+        have hd := idRest_wordEnd d (hw d (by simp))
+        cases rest <;> simp [dropPrefixCI] at h <;> exact ⟨d, _, h.symm, hd⟩
+    | 32 :: a :: tl', ha =>
+      exfalso
+      cases n2 with
+      | nil =>
+        cases rest with
+        | nil => simp [dropPrefixCI] at h
+        | cons c0 r0 =>
+          simp only [List.nil_append, dropPrefixCI] at h
+          split at h
+          · rename_i h0
+            have hc0 : c0 = 32 := lowerC_eq_blank c0 (by simpa using h0)
+            cases r0 with
+            | nil => simp [dropPrefixCI] at h
+            | cons c1 r1 =>
+              simp only [dropPrefixCI] at h
+              split at h
+              · rename_i h1
+                have hal : isAlphaC c1 = true := alpha_of_lowerC_alpha c1 (by rw [(by simpa using h1 : lowerC c1 = a)]; exact ha)
+                have hsk : skipWs (c0 :: c1 :: r1) = c1 :: r1 := by
+                  rw [hc0, show skipWs (32 :: c1 :: r1) = skipWs (c1 :: r1) from by simp [skipWs, isWs]]
+                  exact skipWs_cons c1 _ (alpha_not_ws c1 hal)
+                have := (hf.next c1 r1 hsk).2
+                rw [hal] at this; cases this
+              · cases h
+          · cases h
+      | cons d n2' =>
+        have := idRest_lowerC_ne_blank d (hw d (by simp))
+        simp [dropPrefixCI, this] at h
+  · have hp' : ciPrefix sw name = false := by simpa using hp
+    rw [dropPrefixCI_none_word sw tl name rest (fun a ha => List.all_eq_true.mp halpha a ha) hp' hf.noAlpha] at h
+    cases h
+
+theorem idFirst_idRest (c : Nat) (h : isIdFirstC c = true) : isIdRestC c = true := by
+  simp only [isIdFirstC, Bool.or_eq_true] at h
+  simp only [isIdRestC, isAlnumC, Bool.or_eq_true]
+  rcases h with h | h
+  · exact Or.inl (Or.inl h)
+  · exact Or.inr h
+
+/-- **a label name is not the shift of the operand in front of it** (it may begin with a shift operator:
+    `lsl_loop`, `RORx`, `sxtw1`, `mul_vl`, `mul`), unless it is a shift operator itself -/
+theorem shiftOp_none_name (g : Txt) (c : Nat) (w rest : Txt) (hg : Blank g) (hc : isIdFirstC c = true)
+    (hw : ∀ d ∈ w, isIdRestC d = true) (hno : A64.shiftOps.contains (lower (c :: w)) = false)
+    (hf : NameEnd rest) : shiftOp (g ++ (c :: w ++ rest)) = none := by
+  have hws := (idFirst_facts c hc).1
+  rw [shiftOp_eq]
+  cases hcp : clitOr true A64.shiftOps (g ++ (c :: w ++ rest)) with
+  | none => rfl
+  | some lr =>
+    obtain ⟨l, r⟩ := lr
+    obtain ⟨hm, hcl⟩ := clitOr_some _ _ _ _ hcp
+    have : clit true l (g ++ (c :: w ++ rest)) = dropPrefixCI (c :: w ++ rest) l := by
+      simp only [clit, sk_true, skipWs_blank_append g _ hg]
+      rw [List.cons_append, skipWs_cons c _ hws]
+    rw [this] at hcl
+    have hall : ∀ d ∈ c :: w, isIdRestC d = true := by
+      intro d hd
+      rcases List.mem_cons.mp hd with rfl | hd
+      · exact idFirst_idRest _ hc
+      · exact hw d hd
+    obtain ⟨d, r', rfl, hd⟩ := shiftLit_name l (c :: w) rest r hm hall hno hf hcl
+    exact wordEnd_wordChar _ d r' hd
+
 /-- **label name** in any operand slot -/
 theorem goodOp_ident (name : Txt) (hok : IdentNameOk name) :
     GoodOp false true name (.imm (.ident ⟨none, name, none⟩)) := by
@@ -400,8 +528,7 @@ theorem goodOp_ident (name : Txt) (hok : IdentNameOk name) :
       orElseR_none_left, better_none_left, better_none_right]
     rw [better_some_ge _ _ _ _ (Nat.le_refl _)]
   · intro g rest hg hf
-    exact clitOr_none_words A64.shiftOps shiftWords g (c :: w) rest c w rfl hws hg shiftOps_words hok.noShift
-      (After.follow hf).noAlphaHead
+    exact shiftOp_none_name g c w rest hg hc hw hok.noShift (After.follow hf).nameEnd
   · refine ⟨c, w, rfl, hws, h58, ?_⟩
     simp only [isIdFirstC, isAlphaC, A64.identFirstExtra] at hc; simp at hc; omega
 
